@@ -245,11 +245,11 @@ def main(argv=None):
     rep.add_results("F-COHERENCE witness (outside the coherent region; concrete replay only)", [SR.coherence_witness_result(PROP)], 0, exhaustive=None)
     import superrec2.compute.reconciliation as m1, superrec2.compute.exhaustive as m2
     import superrec2.utils.dynamic_programming as m3, superrec2.model.reconciliation as m4
-    rep.functions = R.source_digest(
+    rep.functions = R.safe_digest(lambda: R.source_digest(
         m1.reconcile_thl, m1._compute_thl_table, m1._compute_thl_try_speciation,
         m1._compute_thl_try_duplication_transfer, m1._decode_thl_table, m2.generate_all,
         m2.reconcile_exhaustive, m3.Entry.update, m3.Entry.combine, m3.EntryProxy, m3.TableProxy,
-        m4.ReconciliationOutput.node_event, m4.ReconciliationOutput._cost_rec)
+        m4.ReconciliationOutput.node_event, m4.ReconciliationOutput._cost_rec))
     bounds["deep"] = (f"{nd} seeded inputs with 3-{5 if tier == 'quick' else 6} object leaves on species trees with 5-{6 if tier == 'quick' else 7} leaves, 70% caterpillars "
                       "(dup, hgt symbolic; spe = 0, floss = 1; thl + exh, any)")
     bounds["simulated"] = f"{len(sim)} inputs obtained by simulating speciation / duplication / transfer / loss forward along a seeded species tree (3-{5 if tier == 'quick' else 6} leaves)"
